@@ -152,7 +152,8 @@ def derivOp : Handler := fun args =>
     let res := getVar "result" st.vars
     Json.mkObj [("res", if st.err.isSome && (match res with | .nil => true | _ => false) then Json.null else toJson (sortMaps res)),
       ("err", match st.err with | some e => Json.str e | none => Json.null),
-      ("recvUnchanged", Json.bool recvSame), ("confined", Json.bool confined), ("rf", Json.bool (rfL prog)),
+      ("recvUnchanged", Json.bool recvSame), ("confined", Json.bool confined),
+      ("wellTyped", Json.bool (match res with | .nil => true | _ => hasTy ty res)), ("rf", Json.bool (rfL prog)),
       ("writes", (st.log.length : Nat))]
   | none, _, _ => Json.mkObj [("bad", "no Project root")]
   | _, none, _ => Json.mkObj [("bad", .str ("no program for " ++ getStr args "op"))]
